@@ -266,8 +266,10 @@ func (c *conn) serve() {
 		if err := recover(); err != nil {
 			buf := make([]byte, 4096)
 			buf = buf[:runtime.Stack(buf, false)]
+			// RemoteAddr may be nil ("if known"), e.g. for an SCTP
+			// association that is gone.
 			log.Printf("diam: panic serving %v: %v\n%s",
-				c.rwc.RemoteAddr().String(), err, buf)
+				c.rwc.RemoteAddr(), err, buf)
 		}
 		c.rwc.Close()
 		c.terminated()
